@@ -661,7 +661,13 @@ fn dump(tcx: TyCtxt<'_>, out_dir: &str) {
             DefKind::Struct | DefKind::Enum | DefKind::Union => {
                 let adt = tcx.adt_def(did);
                 let mut variants = Vec::new();
-                for v in adt.variants().iter() {
+                // discriminant values of enums (explicit `= n` or implicit): `as` casts and hand-written `From<int>` must agree
+                let discrs: Vec<i128> = if adt.is_enum() {
+                    adt.discriminants(tcx).map(|(_, d)| d.val as i128).collect()
+                } else {
+                    Vec::new()
+                };
+                for (vi, v) in adt.variants().iter().enumerate() {
                     let mut fields = Vec::new();
                     for f in v.fields.iter() {
                         let fty = tcx.type_of(f.did).instantiate_identity().skip_normalization();
@@ -676,6 +682,7 @@ fn dump(tcx: TyCtxt<'_>, out_dir: &str) {
                     }
                     variants.push(J::Obj(vec![
                         ("name", J::Str(v.name.to_string())),
+                        ("discr", match discrs.get(vi) { Some(d) => J::Int(*d), None => J::Null }),
                         ("fields", J::Arr(fields)),
                         ("attrs", attrs_text(tcx, v.def_id)),
                         ("line", J::Int(loc(tcx, tcx.def_span(v.def_id)).1)),
